@@ -289,7 +289,7 @@ impl SubCheck for Conc {
     }
     fn run(&self, ctx: &Ctx, rep: &Report) {
         // real threads: run the cases from a few shards only, each case owns up to 5 threads
-        let inner = Pbt { name: "schedules", quick: 3_000, thorough: 60_000, strat, test, max_shrink: 60 };
+        let inner = Pbt { name: "schedules", quick: 3_000, thorough: 300_000, strat, test, max_shrink: 60 };
         inner.run(ctx, rep);
     }
     fn replay(&self, case: &serde_json::Value) -> CheckResult {
